@@ -184,6 +184,10 @@ func c09Server(c c09Case, o *Outcome) *Outcome {
 		mux := http.NewServeMux()
 		httpgrpc.HandleServices(mux.HandleFunc, "/", newHandlerMap(newServiceDesc(), svc), nil, nil)
 		h = mux
+	} else if c.Carrier == cHTTPPer {
+		mux := http.NewServeMux()
+		perMethodMux(mux, "/", newServiceDesc(), svc, nil, nil)
+		h = mux
 	} else {
 		s := httpgrpc.NewServer()
 		s.RegisterService(newServiceDesc(), svc)
@@ -425,7 +429,7 @@ func genC09(t *rapid.T) c09Case {
 		c.RemainNs = int64(math.Exp(exp))
 		return c
 	case 3:
-		c := c09Case{Mode: "e2e", Stream: rapid.Bool().Draw(t, "stream"), Carrier: rapid.SampledFrom([]string{cHTTP, cHTTPMux}).Draw(t, "carrier"), StaleMD: rapid.SampledFrom([]string{"", "", "1H", "99999999H"}).Draw(t, "stalemd")}
+		c := c09Case{Mode: "e2e", Stream: rapid.Bool().Draw(t, "stream"), Carrier: rapid.SampledFrom([]string{cHTTP, cHTTPMux, cHTTPPer}).Draw(t, "carrier"), StaleMD: rapid.SampledFrom([]string{"", "", "1H", "99999999H"}).Draw(t, "stalemd")}
 		if rapid.IntRange(0, 5).Draw(t, "nodl") == 0 {
 			c.NoDL = true
 			return c
@@ -440,7 +444,7 @@ func genC09(t *rapid.T) c09Case {
 		}
 		return c
 	}
-	c := c09Case{Mode: "server", Stream: rapid.Bool().Draw(t, "stream"), Carrier: rapid.SampledFrom([]string{cHTTP, cHTTPMux}).Draw(t, "carrier"), HasHdr: true}
+	c := c09Case{Mode: "server", Stream: rapid.Bool().Draw(t, "stream"), Carrier: rapid.SampledFrom([]string{cHTTP, cHTTPMux, cHTTPPer}).Draw(t, "carrier"), HasHdr: true}
 	if rapid.IntRange(0, 19).Draw(t, "nohdr") == 0 {
 		c.HasHdr = false
 		return c
@@ -456,6 +460,7 @@ func init() { registerReplay("C09", propC09) }
 
 const c09Rule = "rapid-generated: (client) remaining durations log-uniform 50us..10y or no deadline, GRPC-Timeout captured by a recording RoundTripper for Invoke and NewStream, oracle max(1,floor((D-t1)/ms)) <= v <= max(1,floor((D-t0)/ms)); " +
 	"(server) GRPC-Timeout strings from a grammar (1-8 digits x 6 units, 9-19 digits, >int64, int64 edge values per unit, signs, spaces, missing/bad units, junk) against the real handlers via httptest, oracle: well-formed non-negative value => handler deadline within [start+sat(v*unit)-50us, handlerEntry+sat(v*unit)] with saturating arithmetic, never a panic or 5xx; " +
+	"also generated since the seeded rounds: grpc-timeout already present in the caller's outgoing metadata, request contexts with their own (laxer or stricter) deadline, per-RPC credentials whose callback takes 3..20 ms (transit counted from its return); " +
 	"(e2e) caller deadline vs handler deadline over an in-memory net/http round trip, one-sided bounds of 1 ms + transit; non-trivial = unit != m, >=7 digits, malformed, no deadline, remaining < 1 ms or > 1 h; distinct by case hash"
 
 func TestC09(t *testing.T) {
